@@ -5,7 +5,7 @@
     before. All statements hold for every storage content (any key tree, any values), every
     combination of options, every grace period and interval, every fault plan and cancellation
     point. [file s k] is the value of the terminal key k. *)
-From CM Require Import Lib.Str Lib.CleanSyntax Gen.Consts Clean.Model Clean.Proofs Clean.Check Clean.SpecProofs.
+From CM Require Import Lib.Str Lib.CleanSyntax Gen.Consts Clean.Model Clean.Proofs Clean.Check Clean.SpecProofs Clean.Concurrent.
 From Coq Require Import String Ascii.
 Open Scope Z_scope.
 
@@ -142,6 +142,53 @@ Theorem C18_sequence_safe : forall runs s0 k, k <> spec_last_clean ->
    exists r, In r runs /\ justified (r_opts r) (r_now r) s0 k = true).
 Proof. exact clean_seq_post. Qed.
 Print Assumptions C18_sequence_safe.
+
+(** ** concurrent cleaners at call granularity (Clean/Concurrent.v): the body of a cleaning as a
+    resumption over Storage calls is the model ... *)
+Theorem C18_resumption_is_model : forall e o now s,
+  run e (clean_locked_prog o now) s = clean_locked e o now s.
+Proof. exact run_clean_locked_prog. Qed.
+Print Assumptions C18_resumption_is_model.
+
+(** ... and for any number of cleaner threads (own options, clock, fault plan each), any initial
+    storage and EVERY schedule of their individual Storage calls on the shared storage (Lock
+    blocks while the lock is held): a thread is inside its critical section iff it holds the
+    lock, and whenever the lock is free the storage is [clean_seq] of the completed cleanings in
+    lock order -- concurrent cleaning is serialisable *)
+Theorem C18_concurrent_serializable : forall s0 thr0 sched, init_ok thr0 ->
+  let c := csteps (CS s0 None thr0) sched in
+  exists done,
+    Forall (fun r => exists t th0, thr0 t = Some th0 /\ r = run_of th0) done /\
+    (cs_holder c = None -> cs_store c = clean_seq done s0) /\
+    (forall t th p, cs_thr c t = Some th -> th_ph th = Locked p -> cs_holder c = Some t) /\
+    (forall t, cs_holder c = Some t -> exists th p, cs_thr c t = Some th /\ th_ph th = Locked p).
+Proof. exact concurrent_serial. Qed.
+Print Assumptions C18_concurrent_serializable.
+
+(** hence the property for concurrent cleaners: when all are finished, every key other than
+    last_clean.json has its initial value or is gone and was justified for one of the cleaners *)
+Theorem C18_concurrent_cleaners_safe : forall s0 thr0 sched, init_ok thr0 ->
+  let c := csteps (CS s0 None thr0) sched in
+  (forall t th, cs_thr c t = Some th -> exists r, th_ph th = Finished r) ->
+  forall k, k <> spec_last_clean ->
+  file (cs_store c) k = file s0 k \/
+  (file (cs_store c) k = None /\
+   exists t th0, thr0 t = Some th0 /\ justified (th_opts th0) (th_now th0) s0 k = true).
+Proof.
+  intros s0 thr0 sched H0 c Hfin k Hk.
+  destruct (concurrent_final s0 thr0 sched H0 Hfin) as (done & Hd & E0). unfold c. rewrite E0.
+  destruct (clean_seq_post done s0 k Hk) as [E|[E (r & Hr & J)]]; [left; exact E|].
+  right. split; [exact E|]. rewrite Forall_forall in Hd. destruct (Hd r Hr) as (t & th0 & Ht & ->).
+  exists t, th0. split; [exact Ht | exact J].
+Qed.
+Print Assumptions C18_concurrent_cleaners_safe.
+
+Theorem C18_no_deadlock : forall s0 thr0 sched, init_ok thr0 ->
+  let c := csteps (CS s0 None thr0) sched in
+  forall t th, cs_thr c t = Some th -> (forall r, th_ph th <> Finished r) ->
+  exists t', cstep c t' <> c.
+Proof. exact no_deadlock. Qed.
+Print Assumptions C18_no_deadlock.
 
 (** ** the same, node by node (covers the directory nodes of the FileStorage flavour): a key
     keeps its node; or is gone and justified; or was a directory node certificates/<issuer>/<site>
@@ -284,6 +331,30 @@ Proof. vm_compute. repeat split; try reflexivity. repeat constructor. Qed.
 Example ex_second_skips :
   has_kind does_work (proj 1 ex_trace) = false /\ has_kind mutates (proj 0 ex_trace) = true.
 Proof. vm_compute. split; reflexivity. Qed.
+
+(** three concurrent cleaners on the example storage under a round-robin schedule: thread 0 gets
+    the lock and cleans, 1 and 2 are blocked meanwhile, then skip (recorded by thread 0) *)
+Definition ex_thr0 : nat -> option thr :=
+  fun t => if (t <? 3)%nat then Some (Thr ex_env ex_opts (T + Z.of_nat t) Fresh []) else None.
+Definition ex_sched : list nat := List.concat (List.repeat [0; 1; 2]%nat 40).
+Definition is_finished (c : cstate) (t : nat) : bool :=
+  match cs_thr c t with Some th => match th_ph th with Finished _ => true | _ => false end | None => false end.
+Definition ex_c : cstate := csteps (CS ex_store2 None ex_thr0) ex_sched.
+Definition ex_c1 : cstate := csteps (CS ex_store2 None ex_thr0) (firstn 30 ex_sched).
+Example ex_concurrent_init : init_ok ex_thr0.
+Proof.
+  intros t th. unfold ex_thr0. destruct (t <? 3)%nat; [|discriminate]. intros H; injection H; intros <-. split; reflexivity.
+Qed.
+Example ex_concurrent_end :
+  (is_finished ex_c 0%nat, is_finished ex_c 1%nat, is_finished ex_c 2%nat, cs_holder ex_c) = (true, true, true, None).
+Proof. vm_compute. reflexivity. Qed.
+Example ex_concurrent_store :
+  map fst (cs_store ex_c) = map fst (sto (snd (clean ex_env ex_opts T ex_store2))).
+Proof. vm_compute. reflexivity. Qed.
+(** part-way through, thread 0 is inside and the others wait *)
+Example ex_concurrent_mid :
+  (cs_holder ex_c1, is_finished ex_c1 1%nat, is_finished ex_c1 2%nat) = (Some 0%nat, false, false).
+Proof. vm_compute. reflexivity. Qed.
 
 (** ** Limits, stated: a NEGATIVE grace period makes the comparison
     [time.Since(expiresAt) >= grace] true for certificates that are not expired yet; the
